@@ -5,9 +5,10 @@
     (every diagram is sent as an `mk`-expression with explicit boxes/offsets; the layers are
      recomputed by the scanning constructor)
     ntrace <left> <fuel> <expr d>  -> "ok <finished 0|1> <k> <diagram>*k"  (the model's own trace)
+    strace / snake : the same two commands for rigid snake removal (rewriting.py:333-443)
 -/
 import Driver.Codec
-import Model.Rewrite
+import Model.Snake
 
 namespace DV.RewriteCmd
 open DV DV.Codec
@@ -41,6 +42,29 @@ def handle (cmd : String) (rest : List String) : Option String :=
         | .error e => "err " ++ toString e
         | .ok d0 =>
           match normalizeTrace l f d0 [] with
+          | .error e => "err " ++ toString e
+          | .ok (steps, fin) => s!"ok {if fin then 1 else 0} {pList pDiagram steps}"
+  | "strace" =>
+    some <| match ((do let l ← bool; let d ← expr; let ss ← many expr; pure (l, d, ss)) : P _).run rest with
+      | .error m => "bad " ++ m
+      | .ok ((l, d, ss), _) =>
+        match d.eval, evalAll ss with
+        | .ok d0, .ok steps =>
+          match checkSnakeTrace l d0 steps 0 with
+          | some k => s!"rejected {k}"
+          | none =>
+            let last := lastOr d0 steps
+            s!"accepted terminal={if terminal l last then 1 else 0} snakefree={if last.findSnake.isNone then 1 else 0}"
+        | .error e, _ => "err " ++ toString e
+        | _, .error e => "err " ++ toString e
+  | "snake" =>
+    some <| match ((do let l ← bool; let f ← nat; let d ← expr; pure (l, f, d)) : P _).run rest with
+      | .error m => "bad " ++ m
+      | .ok ((l, f, d), _) =>
+        match d.eval with
+        | .error e => "err " ++ toString e
+        | .ok d0 =>
+          match d0.snakeRemoval l f with
           | .error e => "err " ++ toString e
           | .ok (steps, fin) => s!"ok {if fin then 1 else 0} {pList pDiagram steps}"
   | _ => none
